@@ -162,10 +162,10 @@ func hashKey(s string) hkey {
 
 // cand is the best transition seen so far that reaches a not yet seen key.
 type cand[E any] struct {
-	j      int  // position of the (parent, event) pair in the depth's job list: the deterministic tie-break
-	ev     E    // the event of that transition (valid when mine)
-	nev    int  // size of the event menu of the reached state
-	events []E  // the menu itself when known locally
+	j      int // position of the (parent, event) pair in the depth's job list: the deterministic tie-break
+	ev     E   // the event of that transition (valid when mine)
+	nev    int // size of the event menu of the reached state
+	events []E // the menu itself when known locally
 	obs    []string
 	hist   []E // full history (valid when mine)
 	key    string
